@@ -48,7 +48,12 @@ def run(ctx: Ctx) -> Outcome:
         return rtcheck.replay_outcome('C07', ctx)
     scs = scenarios(ctx)
     model_cov, guided, notes = rtmodel.model_check_and_generate('C07', ctx)
-    out = rtcheck.validate('C07', scs, ctx, extra_traces=guided, extra_cov=model_cov)
+    # a few executions on real OS processes and sockets (OS scheduling), validated by the same L1 specification
+    real = [{'topo': ['detached', [2]], 'progs': rtcheck.LIB[n], 'clients': [[['submit', 'H0', 'root'], ['result', 'H0']]],
+             'sched': ['os'], 'lines': False, 'crash': None, 'probe': False} for n in (['W', 'N'] if ctx.quick else ['W', 'N', 'A', 'B', 'D'] * 4)]
+    real_traces = rtcheck.run_real_scenarios(real, ctx)
+    model_cov['real_process_runs'] = len(real_traces)
+    out = rtcheck.validate('C07', scs, ctx, extra_traces=list(guided) + real_traces, extra_cov=model_cov)
     out.notes += notes
     out.assumptions = ['per-channel FIFO delivery; a select returns one ready connection at a time (every order is realisable by timing)',
                        'task bodies are deterministic programs over submit/map/next/await; values are task ids']
